@@ -90,6 +90,11 @@ fn any_address() -> Address {
 fn any_responder(n_has: usize, n_send: usize) -> SyncResponder {
     let s: u8 = kani::any();
     kani::assume(s < 6);
+    responder_in(s, n_has, n_send)
+}
+
+/// Same with the state given by the caller (0 New .. 5 Stopped; may be concrete).
+fn responder_in(s: u8, n_has: usize, n_send: usize) -> SyncResponder {
     let state = match s {
         0 => SyncResponderState::New,
         1 => SyncResponderState::Start,
@@ -139,13 +144,13 @@ const POLL_NO_SUCH_GRAPH: u8 = 33;
 const POLL_TARGET_TOO_SMALL: u8 = 34;
 
 /// `poll` without a stored graph: never panics; what it returns is determined by the state.
-fn poll_without_graph(r: &mut SyncResponder) -> u8 {
+/// `tl` = length of the target buffer (concrete: a symbolic length makes every byte written by
+/// the postcard serializer a symbolic branch; measured > 4 GB).
+fn poll_without_graph(r: &mut SyncResponder, tl: usize) -> u8 {
     let pre = state_no(&r.state);
     let pre_ready = r.ready();
     let done = r.next_send >= r.to_send.len();
-    let mut target = [0u8; 24];
-    let tl: usize = kani::any();
-    kani::assume(tl <= 24);
+    let mut target = [0u8; 32];
     let mut provider = NoGraphs;
     let mut cache = PeerCache::new();
     let mut buffers = TraversalBuffers::new();
@@ -153,7 +158,7 @@ fn poll_without_graph(r: &mut SyncResponder) -> u8 {
     core::mem::forget(buffers);
     match res {
         Ok(n) => {
-            assert!(n <= tl);
+            assert!(n <= tl && n <= 32);
             assert!(pre_ready);
             // only an EndSession (after Reset) or a SyncEnd (nothing left to send) can be produced
             assert!(pre == 4 || (pre == 2 && done));
@@ -310,17 +315,40 @@ fn c18_responder_dispatch_structured() {
     kani::cover!(d == DISPATCH_STOPPED, "EndSession stops the session");
 }
 
-/// `poll` on every valid responder state without any message (covers Send / Idle / Stopped,
-/// which a single received message cannot produce).
+/// `poll` without a stored graph from the states that do not consult the storage: New / Idle /
+/// Stopped (NotReady), Reset (EndSession written), Send with nothing left to send (SyncEnd
+/// written). The state is concrete per call: with a symbolic state CBMC also executes the
+/// storage-walking arms (find_needed_segments, segment deserialization) on unconstrained data
+/// (measured: > 4 GB, no result in 10 min) although the provider has no graph.
+/// `tl`: target length.
+fn poll_storage_free_states(tl: usize) -> [bool; 40] {
+    let mut seen = [false; 40];
+    let states: [u8; 5] = [0, 2, 3, 4, 5];
+    let mut i = 0;
+    while i < 5 {
+        let mut r = responder_in(states[i], 1, 0);
+        let q = poll_without_graph(&mut r, tl);
+        seen[q as usize] = true;
+        core::mem::forget(r);
+        i += 1;
+    }
+    seen
+}
+
 #[kani::proof]
 #[kani::unwind(21)]
-fn c18_responder_poll_any_state() {
-    let mut r = any_responder(1, 1);
-    let q = poll_without_graph(&mut r);
-    kani::cover!(q == POLL_WROTE_END_SESSION, "EndSession written");
-    kani::cover!(q == POLL_WROTE_SYNC_END, "SyncEnd written");
-    kani::cover!(q == POLL_NOT_READY, "poll while not ready");
-    kani::cover!(q == POLL_NO_SUCH_GRAPH, "graph unknown");
-    kani::cover!(q == POLL_TARGET_TOO_SMALL, "target too small");
-    core::mem::forget(r);
+fn c18_responder_poll_storage_free() {
+    let seen = poll_storage_free_states(32);
+    kani::cover!(seen[POLL_WROTE_END_SESSION as usize], "EndSession written");
+    kani::cover!(seen[POLL_WROTE_SYNC_END as usize], "SyncEnd written");
+    kani::cover!(seen[POLL_NOT_READY as usize], "poll while not ready");
+}
+
+/// Same with a target buffer that is too small for any message.
+#[kani::proof]
+#[kani::unwind(21)]
+fn c18_responder_poll_tiny_target() {
+    let seen = poll_storage_free_states(2);
+    kani::cover!(seen[POLL_TARGET_TOO_SMALL as usize], "target too small");
+    kani::cover!(seen[POLL_NOT_READY as usize], "poll while not ready");
 }
